@@ -59,7 +59,12 @@ type Finding struct {
 	Cases    []string `json:"cases"`              // globs over case ids
 	Observed []string `json:"observed,omitempty"` // allowed observation hashes (12 hex) or "*"; empty = "*"
 	Witness  string   `json:"witness,omitempty"`
-	hits     int
+	// CasesFile (relative to findings/) lists the exact failing inputs of this finding, one
+	// per line: "<case id>\t<observation hash or *>". When present it is used instead of
+	// Cases/Observed: only exactly these inputs failing in exactly this way are absorbed.
+	CasesFile string `json:"cases_file,omitempty"`
+	exact     map[string]string
+	hits      int
 }
 
 func Hash(s string) string {
@@ -136,6 +141,23 @@ func (c *Ctx) loadFindings() {
 			os.Exit(2)
 		}
 		if f.Property == c.Prop {
+			if f.CasesFile != "" {
+				cb, err := os.ReadFile(filepath.Join(c.Dir, "findings", f.CasesFile))
+				if err != nil {
+					fmt.Fprintf(os.Stderr, "findings: %v\n", err)
+					os.Exit(2)
+				}
+				f.exact = map[string]string{}
+				for _, l := range strings.Split(string(cb), "\n") {
+					if l == "" {
+						continue
+					}
+					parts := strings.SplitN(l, "\t", 2)
+					if len(parts) == 2 {
+						f.exact[parts[0]] = parts[1]
+					}
+				}
+			}
 			c.findings = append(c.findings, &f)
 		}
 	}
@@ -207,6 +229,12 @@ func globMatch(pat, s string) bool {
 func (c *Ctx) classify(f Fail) *Finding {
 	h := Hash(f.Obs)
 	for _, k := range c.findings {
+		if k.exact != nil {
+			if want, ok := k.exact[f.Case]; ok && (want == "*" || want == h) {
+				return k
+			}
+			continue
+		}
 		okCase := false
 		for _, g := range k.Cases {
 			if globMatch(g, f.Case) {
